@@ -44,6 +44,8 @@ BASE_PARTIALS = {
     "mid": "{% extends 'base' %}{% block a %}m{{ block.super }}{% endblock %}",
     "part/count.html": "{% increment a %}{% cycle 'x','y' %}",
     "part/iso": "{% increment a %}{{ a }}",
+    "part/now": "{{ 'now' | date: '%s' }}/{{ now | date: '%s' }}/{{ today | date: '%Y-%m-%d' }}/{{ 'today' | date: '%Y-%m-%d' }};",
+    "part/nowbase": "[{% block t %}{{ now | date: '%s' }}{% endblock %}]",
 }
 
 
@@ -93,10 +95,16 @@ STATEFUL = {
                  "|{{ unsorted | sort_natural | last }}{{ unsorted | sort_numeric | first }}|{{ unsorted | first }}"
                  "{% assign u2 = unsorted | concat: unsorted | uniq %}{{ u2 | size }}{{ unsorted | size }}",
                  lambda now, d: "1,2,3|3,1,2|2|31|333"),
+    "nowparts": ("{% render 'part/now' %}{% include 'part/now' %}{% capture c %}{{ now | date: '%s' }}{% endcapture %}{{ c }}"
+                 "{% for i in (1..2) %}{{ 'now' | date: '%s' }}{% endfor %}{% with t: now %}{{ t | date: '%s' }}{% endwith %}",
+                 lambda now, d: (f"{int(now)}/{int(now)}/{_fmt_dt(now, '%Y-%m-%d')}/{_fmt_dt(now, '%Y-%m-%d')};" * 2)
+                 + str(int(now)) * 4),
+    "nowblock": ("{% extends 'part/nowbase' %}{% block t %}{{ block.super }}+{{ 'now' | date: '%s' }}{% endblock %}",
+                 lambda now, d: f"[{int(now)}+{int(now)}]"),
     "nowtwice": ("{{ 'now' | date: '%s' }}-{{ 'now' | date: '%s' }}-{{ now | date: '%s' }}",
                  lambda now, d: f"{int(now)}-{int(now)}-{int(now)}"),
 }
-NEEDS_PARTIALS = {"inherit", "incpart", "renpart"}
+NEEDS_PARTIALS = {"inherit", "incpart", "renpart", "nowparts", "nowblock"}
 
 # environment-isolation probe set (time independent); outcomes may be errors
 PROBES = (
